@@ -216,6 +216,7 @@ type Req struct {
 	Data    map[string]any
 	NS      string // namespace header
 	WrapTTL time.Duration
+	WrapFmt string // "" | "jwt"
 	Remote  string
 }
 
@@ -245,7 +246,7 @@ func (h *CoreH) Do(tag string, r Req) (*logical.Response, error) {
 		req.Connection.RemoteAddr = r.Remote
 	}
 	if r.WrapTTL > 0 {
-		req.WrapInfo = &logical.RequestWrapInfo{TTL: r.WrapTTL}
+		req.WrapInfo = &logical.RequestWrapInfo{TTL: r.WrapTTL, Format: r.WrapFmt}
 	}
 	return h.Core.HandleRequest(ctx, req)
 }
